@@ -198,9 +198,33 @@ fn run_case(rep: &mut Report, journal: &mut Journal, case_seed: u64, nsteps: usi
             }
             // one change
             let mut change = Change::default();
-            let k = r.below(12);
+            let k = r.below(14);
             let gleam_files: Vec<usize> = ws.files.iter().enumerate().filter(|(_, f)| f.path.ends_with(".gleam")).map(|(i, _)| i).collect();
-            if k < 7 && !gleam_files.is_empty() {
+            let module_of = |path: &str| -> Option<String> { path.split("/src/").nth(1).and_then(|m| m.strip_suffix(".gleam")).map(|m| m.to_string()) };
+            if k >= 12 && gleam_files.len() >= 2 {
+                // Import rewiring, one file per step: an unqualified import of another module of
+                // the workspace is added (two such steps close an import cycle), or an existing
+                // `import m.{..}` loses its member list (which may break a cycle again). The
+                // recovered state of a cycle must not outlive the cycle.
+                let fi = gleam_files[r.below(gleam_files.len())];
+                let has_members = ws.files[fi].text.lines().position(|l| l.trim_start().starts_with("import ") && l.contains(".{"));
+                if let (Some(li), true) = (has_members, r.chance(1, 2)) {
+                    let lines: Vec<String> = ws.files[fi].text.lines().enumerate().map(|(i, l)| if i == li { l.split(".{").next().unwrap_or(l).to_string() } else { l.to_string() }).collect();
+                    ws.files[fi].text = lines.join("\n") + "\n";
+                    kind = "import-loses-its-member-list";
+                } else {
+                    let others: Vec<usize> = gleam_files.iter().copied().filter(|g| *g != fi && ws.files[*g].pkg == ws.files[fi].pkg).collect();
+                    if let Some(&oj) = others.get(r.below(others.len().max(1))) {
+                        if let Some(m) = module_of(&ws.files[oj].path) {
+                            let name = *r.pick(&["a", "b", "c", "f", "g", "x", "y"]);
+                            ws.files[fi].text = format!("import {m}.{{{name}}}\n{}", ws.files[fi].text);
+                            kind = "unqualified-import-of-a-sibling-added";
+                        }
+                    }
+                }
+                let t = ws.files[fi].text.clone();
+                change.change_file(FileId(ws.files[fi].id), Arc::from(t.as_str()));
+            } else if k < 7 && !gleam_files.is_empty() {
                 let fi = gleam_files[r.below(gleam_files.len())];
                 let (t, kd) = edit_text(&mut r, &ws.files[fi].text);
                 kind = kd;
